@@ -201,7 +201,7 @@ func c20Case(c *core.C) {
 	if c.Thorough() {
 		chunks = 16
 	}
-	base, err := os.MkdirTemp(os.Getenv("VCHECK_SCRATCH"), "c20-")
+	base, err := scratchBase(c, "c20-", c.K%2 == 1)
 	if err != nil {
 		c.Violatef("harness-scratch", nil, "no scratch dir: %v", err)
 		return
